@@ -280,10 +280,16 @@ def classify_while(loop, f, model, cg, sentinel_ok=None):
                     break
                 # must sit in the orelse of `if v == TAG_MISMATCH` whose body appends to a list
                 par = getattr(a, '_parent', None)
-                if not (isinstance(par, ast.If) and a in par.orelse and 'TAG_MISMATCH' in ast.unparse(par.test)):
+                # (either way round: `if v == TAG_MISMATCH: append else: flag = True`, `if v != TAG_MISMATCH` / `if not v == TAG_MISMATCH: flag = True else: append`)
+                fm = sem.cond_formula(par.test) if isinstance(par, ast.If) else None
+                if not (fm is not None and fm[0] == 'lit' and 'TAG_MISMATCH' in fm[1] and ('==' in fm[1] or ' is ' in fm[1])):
                     good = False
                     break
-                apps = [c for s in par.body for c in [s] + list(walk_no_nested(s)) if isinstance(c, ast.Call)
+                mismatch_arm, success_arm = (par.body, par.orelse) if fm[2] else (par.orelse, par.body)
+                if a not in success_arm:
+                    good = False
+                    break
+                apps = [c for s in mismatch_arm for c in [s] + list(walk_no_nested(s)) if isinstance(c, ast.Call)
                         and isinstance(c.func, ast.Attribute) and c.func.attr == 'append' and isinstance(c.func.value, ast.Name)]
                 if not apps:
                     good = False
